@@ -30,8 +30,12 @@ def gen_dense(rng, big=False):
             ops.append("R,%s,%s" % (".".join(str(rng.below(r)) for _ in range(r)), junk(r, c)))
         elif k < 74:
             ops.append("C,%s,%s" % (".".join(str(rng.below(c)) for _ in range(c)), junk(r, c)))
-        elif k < 84:
+        elif k < 81:
             ops.append("x,%d,%d" % (rng.below(r), rng.below(r)))
+        elif k < 84:
+            # exchange two row POINTERS, as the solver's pivoting does (m->row[i] <-> m->row[j]): the rows no longer sit in storage order
+            # (seed C18h: a copy fast path that memcpy'd the whole bit block)
+            ops.append("p,%d,%d" % (rng.below(r), rng.below(r)))
         elif k < 87:
             ops.append("w,%d" % i)
         elif k < 90:
@@ -83,6 +87,9 @@ def dense_oracle(req, ans):
                 for i in range(r):
                     N[i][j] = M[i][cols_[j]]        # ... but overwrites every in-range bit
             M = N
+        elif a[0] == "p":
+            i1, i2 = int(a[1]), int(a[2])
+            M[i1], M[i2] = M[i2], M[i1]
         elif a[0] == "x":
             f, t = int(a[1]), int(a[2])
             M[t] = [x ^ y for x, y in zip(M[t], M[f])]
